@@ -1112,3 +1112,18 @@ impl<T: Actor> Clone for ActorWeak<T> {
         }
     }
 }
+
+/// Read-only mailbox occupancy views for external verification harnesses
+/// (only with `--cfg rsactor_verif`).
+#[cfg(rsactor_verif)]
+impl<T: Actor> ActorRef<T> {
+    /// Number of mailbox slots currently taken (queued or reserved).
+    pub fn verif_mailbox_len(&self) -> usize {
+        self.sender.max_capacity() - self.sender.capacity()
+    }
+
+    /// The capacity the mailbox channel was created with.
+    pub fn verif_mailbox_capacity(&self) -> usize {
+        self.sender.max_capacity()
+    }
+}
